@@ -374,6 +374,12 @@ pub fn random_step(rng: &mut Rng, srv: &mut Srv, padlens: &[usize]) -> Value {
             srv.input(json!({"m":"setcs","v":v}), &b)
         }
         76..=78 => {
+            if rng.chance(1, 5) {
+                // a message type the session does not interpret: handed back to the application as it is
+                let ty = *rng.pick(&[7u8, 16, 19, 22, 99, 255]);
+                let b = srv.peer.encode(RtmpMessage::Unknown { type_id: ty, data: Bytes::from(vec![1u8, 2, 3]) }, ts, 0);
+                return srv.input(json!({"m":"unknowntype","ty":ty}), &b);
+            }
             let (m, name) = match rng.below(4) {
                 0 => (RtmpMessage::SetPeerBandwidth { size: rng.u32(), limit_type: PeerBandwidthLimitType::Soft }, "setpeerbw"),
                 1 => (RtmpMessage::Abort { stream_id: rng.u32() }, "abort"),
